@@ -454,3 +454,15 @@ def check(model, rep):
                'from a 1x6 row (or any other 6-value layout) keeps that layout while reporting shape (6,1), and disp(wrench) / disp([wrench, ...]) raise '
                'IndexError instead of returning the rendering' % val[:60], line=line)
     rep.floor('R20.7', 'payload stores of Screw.__init__', n_store, 2)
+
+    # ---------------------------------------------------------------- R20.8
+    # the table of a list of transforms is filled cell by cell through `matrix[i][j]`, i.e. tm.__getitem__: what is shown is what it returns
+    rep.rule('R20.8', 'indexing a transform returns the entry of its six-vector unchanged (printTFlist renders lists of transforms cell by cell '
+                      'through tm.__getitem__: a value filtered or snapped there is shown wrongly, NaN as 0)')
+    gi = model.cls('basic_robotics.general.faser_transform', 'tm').methods.get('__getitem__')
+    if gi is None:
+        raise AnalysisError('anchor vanished: tm.__getitem__')
+    il_gi = Inliner(gi)
+    reads = [il_gi.text(r_.value, canon=False) for r_ in walk_own(gi.node) if isinstance(r_, ast.Return) and r_.value is not None]
+    okg = bool(reads) and all(t_.startswith('self.TAA[') and t_.endswith(']') and t_.count('[') == 1 for t_ in reads)
+    rep.ob('R20.8', gi, 'tm.__getitem__ returns self.TAA[...]', okg, 'tm.__getitem__ returns %s: entries are altered between the transform and the display' % reads)
